@@ -13,6 +13,7 @@ var _ = vp.Reg("StylingStep", H_StylingStep)
 var _ = vp.Reg("DrawingStep", H_DrawingStep)
 var _ = vp.Reg("Stream", H_Stream)
 var _ = vp.Reg("Magic", H_Magic)
+var _ = vp.Reg("WideStep", H_WideStep)
 
 // H_Numbers: the four number decoders against the reference, for every
 // pattern of 0..4 bytes.
@@ -113,4 +114,41 @@ func H_Magic() {
 	if L == 5 {
 		vp.Assert(vp.Implies(magic, (err == nil) == (src[4] == 0)), "magic + chunk count 0 is the empty graphic; other one-byte tails are rejected")
 	}
+}
+
+// H_WideStep: instructions that do not fit the small windows of the generic
+// step harnesses: one repetition of every drawing verb (6-operand curves and
+// arcs included) and StartPath / SetLOD, with every operand in a freely chosen
+// width: one operand (chosen symbolically) is 1, 2 or 4 arbitrary bytes, the
+// others are arbitrary 1-byte forms. Arc flags are a natural number of any width.
+func H_WideStep() {
+	ops := [...]byte{0x00, 0x20, 0x40, 0x50, 0x60, 0x70, 0x80, 0x90, 0xa0, 0xb0, 0xc0, 0xd0, 0xe2, 0xe3, 0xe6, 0xe7, 0xe8, 0xe9}
+	nops := [...]int{2, 2, 2, 2, 4, 4, 4, 4, 6, 6, 6, 6, 2, 2, 1, 1, 1, 1}
+	i := vp.Choice("verb", len(ops))
+	n := nops[i]
+	hot := vp.Choice("hot", n)
+	width := 1 << vp.Choice("width", 3)
+	b := []byte{ops[i]}
+	for j := 0; j < n; j++ {
+		if j == hot {
+			x := vp.Bytes("wide", width)
+			want := byte(0)
+			if width == 2 {
+				want = 1
+			} else if width == 4 {
+				want = 3
+			}
+			vp.Assume(x[0]&3 == want || (width == 1 && x[0]&1 == 0))
+			b = append(b, x...)
+		} else {
+			x := vp.Bytes("narrow", 1)
+			vp.Assume(x[0]&1 == 0)
+			b = append(b, x...)
+		}
+	}
+	vp.ReadOnly(b)
+	var d1, d2 rec.Dest
+	mode1, rest, err := decode.VPDrawing(&d1, nil, b)
+	n2, mode2, ok := ref.DrawingStep(&d2, b)
+	compareStep(mode1, rest, err, &d1, n2, mode2, ok, &d2, len(b))
 }
